@@ -9,8 +9,8 @@ Local Close Scope Q_scope.
 (* ------------------------------------------------------------------------- *)
 (** * Bookkeeping effect of one process step *)
 
-Definition waitfor_event (pid : nat) (q : Q) (s : state) : event :=
-  let t := tadd (s_now s) q in
+Definition waitfor_event (pid : nat) (q : uq) (s : state) : event :=
+  let t := tadd (s_now s) (uQ q) in
   resume_event t (if Qeq_bool t (s_now s) && phase_eqb (s_phase s) AFTER then N.succ (s_mt s) else 0%N)
                AFTER pid (s_nextid s) (WkFor q) (mk_ghost (s_now s) (s_nextid s) [] []).
 
